@@ -80,7 +80,7 @@ func gen(t *rapid.T) Case {
 	switch c.Kind {
 	case "wkt":
 		c.D = genWKTDef(t)
-		c.WKTOpt = projkit.WKTOpts{ESRI: rapid.Bool().Draw(t, "esri"), Authority: rapid.Bool().Draw(t, "auth"), UnitFirst: rapid.Bool().Draw(t, "unitfirst"),
+		c.WKTOpt = projkit.WKTOpts{ESRI: rapid.Bool().Draw(t, "esri"), Authority: rapid.Bool().Draw(t, "auth"), UnitFirst: rapid.Bool().Draw(t, "unitfirst"), Degree: rapid.SampledFrom(projkit.DegreeSpellings).Draw(t, "degree"),
 			Reverse: rapid.Bool().Draw(t, "reverse"), Axis: rapid.Bool().Draw(t, "axis"),
 			Sep: rapid.SampledFrom([]string{"", "", " ", "\n    "}).Draw(t, "sep")}
 		c.Variant = rapid.IntRange(0, 5).Draw(t, "variant")
@@ -122,7 +122,7 @@ func gen(t *rapid.T) Case {
 			o = genWKTDef(t)
 		}
 		c.Other = &o
-		c.WKTOpt = projkit.WKTOpts{ESRI: rapid.Bool().Draw(t, "esri"), Authority: rapid.Bool().Draw(t, "auth"), UnitFirst: rapid.Bool().Draw(t, "unitfirst")}
+		c.WKTOpt = projkit.WKTOpts{ESRI: rapid.Bool().Draw(t, "esri"), Authority: rapid.Bool().Draw(t, "auth"), UnitFirst: rapid.Bool().Draw(t, "unitfirst"), Degree: rapid.SampledFrom(projkit.DegreeSpellings).Draw(t, "degree")}
 		c.Variant = rapid.IntRange(0, 5).Draw(t, "variant")
 		c.Lon, c.Lat = projkit.GenPosition(t, c.D)
 	case "equal":
